@@ -14,6 +14,8 @@ DECIDED = ('(a) every read in the Content-Length loop requests min(remaining, bu
            'other mutation of the buffer; (e) the buffered copy replaces wsgi.input, is cached in environ and rewound on '
            'every access. With read(n) returning at most n bytes these premises give the loop invariant "buffer == first '
            '(CL - remaining) bytes of the stream", hence the statement.')
+DECIDED_MORE = ('Also: no non-empty part is dropped (yielded before the next read/exit, or kept in an accumulator the end-of-stream exit can flush); nobody closes the cached body; one write(part) per non-raising pass.')
+DECIDED = DECIDED + ' ' + DECIDED_MORE
 NOT_DECIDED = 'nothing of the statement beyond the stated assumptions (PEP 3333 read contract; BytesIO/TemporaryFile semantics).'
 ASSUMPTIONS = ['wsgi.input.read(n) returns at most n bytes (PEP 3333)',
                'io.BytesIO / tempfile.TemporaryFile write/getvalue/seek behave as documented']
